@@ -69,7 +69,7 @@ def generic_eval(pid, oracle, payloads=("plain",), stages=None, on_raise=None):
         classes = gg.classify(intg)
         nontrivial = False
         payload = payloads[len(g) % len(payloads)]
-        for stage in stages or stages_for(g, origin):
+        for stage in (("branch", stages_for(g, origin)[-1]) if stages == "full" else stages or stages_for(g, origin)):
             scfg, originals, exc = build(g, stage, payload)
             if exc is not None:
                 if on_raise is not None:
